@@ -264,7 +264,7 @@ func c07Run(tier string, seed int64, outdir string, replay string) error {
 	// 1. fault-free runs: learn the number of Storage calls of every variant and where the save starts
 	variants := c07Variants()
 	type learned struct {
-		L, storeKey int
+		L, storeKey, storeComp int
 	}
 	info := make([]learned, len(variants))
 	for vi, v := range variants {
@@ -272,7 +272,7 @@ func c07Run(tier string, seed int64, outdir string, replay string) error {
 		in.Plan, in.Kind = c06Plan{From: -1, Crash: -1}, "none"
 		L, o := c07RunCase(w, in)
 		w.Hist(fmt.Sprintf("ops_in_faultfree_run=%d", L))
-		info[vi] = learned{L: L, storeKey: -1}
+		info[vi] = learned{L: L, storeKey: -1, storeComp: -1}
 		n := 0
 		for _, ev := range o.logEnc {
 			if ev[0] != 0 {
@@ -280,6 +280,9 @@ func c07Run(tier string, seed int64, outdir string, replay string) error {
 			}
 			if ev[1] == 0 && len(ev) >= 7 && ev[2] == 0 && ev[5] == 0 && ev[6] == 0 && info[vi].storeKey < 0 {
 				info[vi].storeKey = n // Store of a .key file
+			}
+			if ev[1] == 0 && len(ev) >= 7 && ev[2] == 0 && ev[5] == 3 && ev[6] == 0 && info[vi].storeComp < 0 {
+				info[vi].storeComp = n // Store of a .key.compromised file (quarantine)
 			}
 			n++
 		}
@@ -379,8 +382,14 @@ func c07Run(tier string, seed int64, outdir string, replay string) error {
 			}
 			if c07VariantMemoryOnly(v.Name) {
 				// forceRenew goes through the retrying (Async) entry points: a storage error there is retried
-				// with minutes of back-off, which the model does not have; process death needs no retry
-				plans = plans[:1]
+				// with minutes of back-off, which the model does not have; process death needs no retry - and
+				// neither do errors inside the quarantine of the compromised key, whose result is only logged
+				sc := info[vi].storeComp
+				if sc >= 0 && k >= sc-1 && k <= sc+1 {
+					plans = plans[:2]
+				} else {
+					plans = plans[:1]
+				}
 			}
 			for _, pl := range plans {
 				in := base
